@@ -334,3 +334,36 @@ def false_cycle_tasks(mgr):
                 reach[a] |= new
                 changed = True
     return sorted(a for a in ids if a in reach[a])
+
+
+def false_cycle_locs(defs):
+    """Signature of the open C01 finding, computed from the HARNESS' descriptors of the current definitions
+    (not from the task objects, whose recorded attributes a defect may have left stale): a task defining
+    location L targets L and every container enclosing it below the root (owner chain) and depends on every
+    location its descriptor reads and on their enclosing containers; A -> B iff targets(A) & deps(B).  The
+    data flow of every explored universe is acyclic, so a cycle of >= 2 tasks of this graph exists only
+    through the container-level overlap.  Returns the defined locations lying on such a cycle."""
+    def owners(L):
+        c = container_of(L)
+        return {c} if c in ("n", "l") else set()
+    tg, dp = {}, {}
+    for L, dsc in defs.items():
+        tg[L] = {L} | owners(L)
+        rd = set(reads(dsc))
+        dp[L] = set(rd)
+        for p in rd:
+            dp[L] |= owners(p)
+    ids = list(defs)
+    edges = {a: {b for b in ids if b != a and tg[a] & dp[b]} for a in ids}
+    reach = {a: set(edges[a]) for a in ids}
+    changed = True
+    while changed:
+        changed = False
+        for a in ids:
+            new = set()
+            for b in reach[a]:
+                new |= reach[b]
+            if not new <= reach[a]:
+                reach[a] |= new
+                changed = True
+    return sorted(a for a in ids if a in reach[a])
